@@ -409,6 +409,8 @@ func Sources(ctx context.Context, pgp *pgxpool.Pool) ([]Source, error) {
 			return nil, fmt.Errorf("scanning source: %w", err)
 		}
 		s.URLs = append(s.URLs, urlStr)
+		// same default as sources from the config file
+		s.PollDuration = time.Second
 		res = append(res, s)
 	}
 	return res, nil
